@@ -23,7 +23,7 @@ FN_NAMES = {
     381: "Rc handle history", 382: "Arc handle history (one thread per operation)",
 }
 PROPS = {
-    "C09": set(range(301, 308)) | {372, 381, 382},
+    "C09": set(range(301, 308)) | {372, 381, 382} | {321, 322, 323, 331, 332, 335},
     "C10": set(range(301, 308)) | {381, 382},
     "C11": set(range(311, 318)) | {333, 334},
     "C12": {351, 352, 353, 354, 355, 361, 362},
@@ -61,7 +61,7 @@ def build(tier, feats):
 
 
 def transcripts(tier, seed=1):
-    key = repo_hash()[:16] + "-" + machinery_hash(["harness/allocgrid", "oracle", "coq/theories", "tools/fam_alloc.py"])[:16] + "-%d" % seed
+    key = repo_hash()[:16] + "-" + machinery_hash(["harness/allocgrid", "oracle", "coq/theories", "tools/fam_alloc.py", "tools/common.py"])[:16] + "-%d" % seed
     cdir = os.path.join(CACHE, "transcripts", "alloc-%s-%s" % (tier, key))
     done = os.path.join(cdir, "result.json")
     if os.path.exists(done):
@@ -107,7 +107,9 @@ def transcripts(tier, seed=1):
     ds = sorted((os.path.join(troot, x) for x in os.listdir(troot) if x.startswith("alloc-")), key=os.path.getmtime)
     for old in ds[:-4]:
         shutil.rmtree(old, ignore_errors=True)
-    json.dump(res, open(done, "w"), indent=1)
+    # a run in which the oracle or a harness could not be built is never cached
+    if not oerr and not any("build_error" in e for e in res["cfgs"].values()):
+        json.dump(res, open(done, "w"), indent=1)
     return res
 
 
